@@ -57,6 +57,16 @@ def reentrant_cases(rng, seed):
         scn = ["conc", ["objects"] + objs, ["init", ["sub", 0, 0] + [react], ["sub", 2, 1]], ["threads"] + threads, ["fini"],
                ["sched", "random", seed * 1000 + rng.randrange(1000), MAX_RUNS], ["want-edges"]]
         cases.append({"scn": scn, "from": "reentrant"})
+    # feedback through an operator that delivers on its OWN thread (or holds an item back): the subscriber, called on that thread,
+    # emits into the subject that feeds the operator
+    for opn, ps, others in [("debounce", [5], []), ("delay", [3], []), ("timeout", [60], []), ("observe_on", [], []), ("sample", [], [["interval", 5]])]:
+        for i in (0, 1):
+            pipe = ["op", opn, ps, ["hot", 0]] + others
+            objs = [["subject", "subject"], ["pipe", pipe]]
+            threads = [["a", ["sleep", 1], ["next", 0, 1], ["sleep", 40], ["next", 0, 2], ["sleep", 40], ["unsub", 0]]]
+            scn = ["conc", ["objects"] + objs, ["init", ["sub", 0, 0, ["react", i, ["next", 0, 5 + i]]]], ["threads"] + threads, ["fini"],
+                   ["sched", "random", seed * 1000 + rng.randrange(1000), MAX_RUNS], ["want-edges"]]
+            cases.append({"scn": scn, "from": "feedback-" + opn})
     return cases
 
 
